@@ -156,7 +156,7 @@ def oblige_equal(ctx, name, a, b, kind='ensures'):
         if a.ndim != b.ndim:
             ctx.oblige(name + '.ndim', False, kind, info={'ndim': (a.ndim, b.ndim)})
             return
-        if a.dtype != b.dtype:
+        if a.dtype != b.dtype and {a.dtype, b.dtype} != {'int', 'float'}:      # A3: int-valued floats
             ctx.oblige(name + '.dtype', False, kind, info={'dtype': (a.dtype, b.dtype)})
         shape_ok = True
         for k, (x, y) in enumerate(zip(a.shape, b.shape)):
@@ -195,8 +195,53 @@ def oblige_equal(ctx, name, a, b, kind='ensures'):
     ctx.oblige(name + '.kind', False, kind, info={'types': (type(a).__name__, type(b).__name__)})
 
 
+def value_of(ctx, t):
+    """The integer value of t if the path condition forces a unique one, else None."""
+    t = S.num(t)
+    if not S.is_z3(t):
+        return t
+    s = ctx.solver()
+    if s.check() != z3.sat:
+        return None
+    v = s.model().eval(t, model_completion=True)
+    if not z3.is_int_value(v):
+        return None
+    v = v.as_long()
+    return v if ctx.known(t == v) else None
+
+
+def expand_sums(ctx, d, budget=20000):
+    """Write out every finite sum of d whose bounds are forced to concrete values (None if not all)."""
+    work = [d]
+    total = 0
+    count = [0]
+
+    def rec(x):
+        if not isinstance(x, S.SumT):
+            return x
+        acc = x.rest if not isinstance(x.rest, S.SumT) else rec(x.rest)
+        for (c, lo, hi, body) in x.terms:
+            lo_v, hi_v = value_of(ctx, lo), value_of(ctx, hi)
+            if lo_v is None or hi_v is None:
+                raise KeyError('symbolic bound')
+            for k in range(lo_v, hi_v):
+                count[0] += 1
+                if count[0] > budget:
+                    raise KeyError('too many terms')
+                acc = S.add(acc, S.mul(rec(body(k)), c))
+        return acc
+    try:
+        return rec(d)
+    except KeyError:
+        return None
+
+
 def sum_zero(ctx, name, d, kind='ensures', depth=0):
-    """Obligations for d == 0 where d may contain finite sums (Sigma-extensionality, peeling)."""
+    """Obligations for d == 0 where d may contain finite sums.
+
+    Rules (DESIGN 3.2): terms with provably equal bounds are grouped and compared body-wise at a
+    fresh index (Sigma-extensionality: equal bounds and pointwise equal bodies give equal sums);
+    an upper bound that differs by exactly one is peeled into the rest; empty ranges vanish."""
     if not isinstance(d, S.SumT):
         if isinstance(d, S.Cx):
             ctx.oblige(name, S.and_(S.eq(d.re, 0), S.eq(d.im, 0)), kind)
@@ -206,63 +251,51 @@ def sum_zero(ctx, name, d, kind='ensures', depth=0):
     if depth > 6:
         ctx.oblige(name + '.structure', False, kind, info={'structural': True, 'why': 'nesting too deep'})
         return
+    if getattr(ctx, 'expand_sums', False):
+        # replay mode: every symbol is pinned, so the bounds are concrete and sums are written out
+        d2 = expand_sums(ctx, d)
+        if d2 is not None:
+            return sum_zero(ctx, name, d2, kind, depth + 1)
     terms = []
     rest = d.rest
     for (c, lo, hi, body) in d.terms:
         if ctx.known(S.le(hi, lo)):
             continue
         terms.append([c, lo, hi, body])
-    used = [False] * len(terms)
-    pair_no = 0
-    for i, t1 in enumerate(terms):
-        if used[i]:
-            continue
-        for j in range(i + 1, len(terms)):
-            if used[j]:
+    groups = []
+    for t in terms:
+        placed = False
+        for g in groups:
+            lo, hi = g['lo'], g['hi']
+            if not ctx.known(S.eq(t[1], lo)):
                 continue
-            t2 = terms[j]
-            adj = _align(ctx, t1, t2)
-            if adj is None:
-                continue
-            lo, hi, extra = adj
-            used[i] = used[j] = True
-            rest = S.add(rest, extra)
-            k = ctx.fresh_int('k')
-            c1, b1, c2, b2 = t1[0], t1[3], t2[0], t2[3]
+            if ctx.known(S.eq(t[2], hi)):
+                g['terms'].append(t)
+                placed = True
+            elif ctx.known(S.eq(t[2], S.add(hi, 1))) and ctx.known(S.ge(hi, lo)):
+                rest = S.add(rest, S.mul(t[3](hi), t[0]))        # peel the last element of t
+                g['terms'].append(t)
+                placed = True
+            elif ctx.known(S.eq(hi, S.add(t[2], 1))) and ctx.known(S.ge(t[2], lo)):
+                for u in g['terms']:                              # peel the last element of the group
+                    rest = S.add(rest, S.mul(u[3](t[2]), u[0]))
+                g['hi'] = t[2]
+                g['terms'].append(t)
+                placed = True
+            if placed:
+                break
+        if not placed:
+            groups.append({'lo': t[1], 'hi': t[2], 'terms': [t]})
+    for gi, g in enumerate(groups):
+        k = ctx.fresh_int('k')
 
-            def sub(k=k, c1=c1, b1=b1, c2=c2, b2=b2, pair_no=pair_no):
-                v = S.add(S.mul(b1(k), c1), S.mul(b2(k), c2))
-                sum_zero(ctx, '%s.body%d' % (name, pair_no), v, kind, depth + 1)
-            with_hyp(ctx, [k >= S.z(lo) if S.is_z3(lo) or True else None, S.z(S.lt(k, hi))], sub)
-            pair_no += 1
-            break
-    for i, t in enumerate(terms):
-        if not used[i]:
-            # a lone sum: it must vanish term by term (coef * body == 0)
-            k = ctx.fresh_int('k')
-            c, lo, hi, body = t
-
-            def sub(k=k, c=c, body=body, i=i):
-                sum_zero(ctx, '%s.lone%d' % (name, i), S.mul(body(k), c), kind, depth + 1)
-            with_hyp(ctx, [k >= S.z(lo), S.z(S.lt(k, hi))], sub)
-    sum_zero(ctx, name + '.rest' if d.terms else name, rest, kind, depth + 1)
-
-
-def _align(ctx, t1, t2):
-    """Try to bring two sum terms to common bounds; returns (lo, hi, extra_rest) and mutates
-    nothing; extra_rest collects peeled boundary elements."""
-    c1, lo1, hi1, b1 = t1
-    c2, lo2, hi2, b2 = t2
-    extra = 0
-    if not ctx.known(S.eq(lo1, lo2)):
-        return None
-    if ctx.known(S.eq(hi1, hi2)):
-        return lo1, hi1, 0
-    if ctx.known(S.eq(hi1, S.add(hi2, 1))) and ctx.known(S.ge(hi2, lo1)):
-        return lo1, hi2, S.mul(b1(hi2), c1)
-    if ctx.known(S.eq(hi2, S.add(hi1, 1))) and ctx.known(S.ge(hi1, lo2)):
-        return lo1, hi1, S.mul(b2(hi1), c2)
-    return None
+        def sub(k=k, g=g, gi=gi):
+            v = 0
+            for (c, lo, hi, body) in g['terms']:
+                v = S.add(v, S.mul(body(k), c))
+            sum_zero(ctx, '%s.body%d' % (name, gi), v, kind, depth + 1)
+        with_hyp(ctx, [S.z(S.ge(k, g['lo'])), S.z(S.lt(k, g['hi']))], sub)
+    sum_zero(ctx, name + '.rest' if groups else name, rest, kind, depth + 1)
 
 
 # ----------------------------------------------------------------------------------------
